@@ -39,6 +39,8 @@ CLAIMED = {
             "exact for all values at each grid cell; the integer grid is bounded", "4-C18"),
     "C05": ("proof", "contract-based deductive verification: returned log-densities proved equal, as terms, to the textbook closed forms (Gaussian family), exact summation to one (Bernoulli), normaliser compared through its erf arguments; sampling code proved to use the location/scale of its own context row and one fresh draw per sample",
             "all values for the enumerated event shapes; MADE mixture, KDE evaluator and BoxUniform not under contract (listed)", "4-C05"),
+    "C03": ("proof", "contract-based deductive verification of the premises of the change-of-variables theorem: Flow._log_prob proved to be exactly base log-density of the transformed point plus log-abs-det (uninterpreted transform / embedding), plus re-discharged bijection / log-det / base-density contracts; the integral itself follows by the (trusted) theorem",
+            "structure clause for all transforms and contexts; premises for all values on one configuration each (full strength in C01/C02/C05/C09); quadrature is replaced by the theorem", "4-C03"),
 }
 REASON_TODO = "check not built yet in this session (the design in DESIGN.md section 4 applies; will be claimed when its contracts discharge)"
 props = [json.loads(l) for l in open(os.path.join(V, "properties.jsonl"))]
